@@ -1,4 +1,5 @@
 import ZenonVerif.Model.Rewards
+import ZenonVerif.Model.Points
 import Driver.Core
 /-
 Driver handlers for the C11 stream `rewards-pure`.
@@ -171,6 +172,36 @@ def pureRewards : List String → Option String
         if rz.sum > Tz ∨ rq.sum > Tq then pure "err" else
         let per := (rz.zip rq).flatMap (fun (a, b) => [a, b])
         pure (" ".intercalate ((per.map toString) ++ [";", toString (Tz - rz.sum), toString (Tq - rq.sum)]))
+  | _ => none
+
+/-! ### consensus points (`pt-fold`): period points → epoch point -/
+
+def parseDetails : Nat → List Nat → Option (ZV.Points.PMap × List Nat)
+  | 0, rest => some ([], rest)
+  | n + 1, id :: ex :: fa :: w :: rest => do
+    let (m, rest') ← parseDetails n rest
+    pure ((id, ⟨ex, fa, w⟩) :: m, rest')
+  | _, _ => none
+
+def parsePoints : Nat → List Nat → Option (List ZV.Points.Point × List Nat)
+  | 0, rest => some ([], rest)
+  | k + 1, n :: total :: rest => do
+    let (m, rest') ← parseDetails n rest
+    let (ps, rest'') ← parsePoints k rest'
+    pure (⟨m, total⟩ :: ps, rest'')
+  | _, _ => none
+
+def showPoint (p : ZV.Points.Point) : String :=
+  let sorted := p.pillars.mergeSort (fun a b => a.1 ≤ b.1)
+  let body := sorted.map (fun e => s!" {e.1} {e.2.expected} {e.2.factual} {e.2.weight}")
+  s!"{p.pillars.length} {p.total}" ++ String.join body
+
+def purePoints : List String → Option String
+  | "pt-fold" :: k :: rest => do
+      let k ← k.toNat?
+      let nums ← rest.mapM String.toNat?
+      let (ps, left) ← parsePoints k nums
+      if left ≠ [] then none else pure (showPoint (ZV.Points.compound ps))
   | _ => none
 
 end ZV.Driver
